@@ -23,22 +23,16 @@ XShape(id) ==
                                                    Ms(LeafE("e"), <<MF(EF1, "em", "tage")>>),
                                                    Ms(LL("ll"), <<MF(EF3, "llm", "")>>) >>), ET3), <<MF(EF5, "lm", "")>>),
                           Ms(User(LL("lu")), <<M0(EF6)>>) >>) >>
-    [] id = 3 ->   \* a list with a false when; whens handed on by uses and augment (on a leaf with its own when, a presence
-                   \* container, list entries), a uses inside an augment
+    [] id = 3 ->   \* a list with a false when; a when handed on by a uses (leaf, presence container)
          << PCont("c", << Ms(W(ListN("l", "k", << Leaf("k"), Ms(Leaf("v"), <<M0(EF1)>>) >>), EF2), <<M0(EF1)>>),
                           Uses(EF1, << Leaf("ul"), Ms(PCont("uc", << Leaf("ucl") >>), <<M0(EF2)>>) >>),
-                          Ms(Leaf("own"), <<M0(EF4)>>),
-                          Aug(EF2, << Ms(W(Leaf("al"), EF4), <<M0(EF1)>>),
-                                      Ms(PCont("ac", << Ms(Leaf("acl"), <<M0(EF1)>>) >>), <<M0(EF1)>>),
-                                      ListN("alist", "k", << Leaf("k") >>),
-                                      Uses(EF5, << W(Leaf("gl"), EF6) >>) >>) >>) >>
+                          Ms(Leaf("own"), <<M0(EF4)>>) >>) >>
     [] id = 4 ->   \* config false subtrees and the four validation types; non-presence containers on both sides
          << Ms(PCont("c", << Ms(Leaf("cl"), <<M0(EF1)>>),
                              Ms(State(PCont("st", << Ms(Leaf("sl"), <<M0(EF2)>>), Ms(Cont("snp", << >>), <<MF(EF1, "snp", "")>>),
                                                      Ms(LL("sll"), <<M0(EF3)>>) >>)), <<M0(EF1)>>),
-                             Ms(State(Cont("cnp", << Leaf("q") >>)), <<MF(EF1, "cnp", "")>>),
-                             Ms(Cont("np", << Ms(State(Leaf("nps")), <<M0(EF1)>>) >>), <<MF(EF2, "np", "")>>) >>), <<M0(EF4)>>),
-            Ms(State(PCont("s2", << Ms(Leaf("t"), <<M0(EX1)>>) >>)), <<M0(EF1)>>) >>
+                             Ms(State(Cont("cnp", << >>)), <<MF(EF1, "cnp", "")>>),
+                             Ms(Cont("np", << Ms(State(Leaf("nps")), <<M0(EF1)>>) >>), <<MF(EF2, "np", "")>>) >>), <<M0(EF4)>>) >>
     [] id = 5 ->   \* whens on a choice, on cases, handed on by an augment of the choice (O2); an augment of a case
          << PCont("c", << W(Choice("ch", << W(Case("ca", << Ms(Leaf("x"), <<M0(EF1)>>), Aug(EF1, << Leaf("cal") >>) >>), EF2),
                                             Case("cb", << Leaf("y") >>),
@@ -76,7 +70,18 @@ XShape(id) ==
                                              LeafR("rr", Lref("../w", 1, <<"w">>, 0)),
                                              LeafR("ra", Lref("/v:c/v:l/v:w", -1, <<"c", "l", "w">>, 0)),
                                              LeafR("rp", Lref("/v:c/v:l[v:k = current()/../v:k]/v:w", -1, <<"c", "l", "w">>, 2)) >>) >>) >>
-NXShapes == 11
+    [] id = 12 ->  \* whens handed on by an augment (on a leaf with its own when, a presence container, list entries), a uses
+                   \* inside the augment
+         << PCont("c", << Ms(Leaf("own"), <<M0(EF4)>>),
+                          Aug(EF2, << Ms(W(Leaf("al"), EF4), <<M0(EF1)>>),
+                                      Ms(PCont("ac", << Ms(Leaf("acl"), <<M0(EF1)>>) >>), <<M0(EF1)>>),
+                                      ListN("alist", "k", << Leaf("k") >>),
+                                      Uses(EF5, << W(Leaf("gl"), EF6) >>) >>) >>) >>
+    [] id = 13 ->  \* a top-level config false container, an expression that fails to run below it
+         << Ms(State(PCont("s2", << Ms(Leaf("t"), <<M0(EX1)>>) >>)), <<M0(EF1)>>), Ms(Leaf("top"), <<M0(EF2)>>) >>
+    [] id = 14 ->  \* the smallest schema on which caching a relative leafref would be wrong (cache models only)
+         << ListN("l", "k", << Leaf("k"), Leaf("w"), LeafR("rr", Lref("../w", 1, <<"w">>, 0)) >>) >>
+NXShapes == 13
 
 \* ------------------------------------------------ enumeration of data trees
 KeyVals == <<"k9", "k10", "k2">>
@@ -126,6 +131,9 @@ RedecOne(s) ==
 Redecorate(sk) == IF sk = << >> THEN << >> ELSE <<RedecOne(sk[1])>> \o Redecorate(Tail(sk))
 RandShape(base) == Redecorate(XShape(base))
 
+RECURSIVE SetAsSeq(_)
+SetAsSeq(S) == IF S = {} THEN << >> ELSE LET x == CHOOSE x \in S : TRUE IN <<x>> \o SetAsSeq(S \ {x})
+
 \* ------------------------------------------------ the adapter view, for the replay
 NV(x) == [n |-> XName(x), v |-> XValue(x)]
 NVs(xs) == [i \in 1..Len(xs) |-> NV(xs[i])]
@@ -145,4 +153,14 @@ XT(x) ==
    flt |-> {[f |-> f, srt |-> NVs(XChildren(x, f, TRUE)), uns |-> NVs(XChildren(x, f, FALSE))] : f \in Filters(x)},
    kids |-> [i \in 1..Len(ks) |-> XT(ks[i])]]
 View(schema, data) == XT(RootX(schema, data))
+
+\* the schema walker XNode (node_xpath.go) shows the compiled schema itself: the children (choices and
+\* cases looked through; as a SET - Node.Children() ranges over a map, the replay ignores the order of
+\* kids), the path from the start node, the kind of node
+RECURSIVE SW(_, _)
+SW(c, xp) ==
+  LET ks == DataKids(c.kids) IN
+  [n |-> c.name, xp |-> xp, leaf |-> c.kind = "leaf", ll |-> c.kind = "leaflist", npc |-> c.kind = "container" /\ ~c.presence,
+   kids |-> [i \in 1..Len(ks) |-> SW(ks[i], Append(xp, ks[i].name))]]
+SchemaView(schema) == SW(TreeNode(schema), << >>)
 =============================================================================
